@@ -1,6 +1,7 @@
 (* Rust's str::to_lowercase as used on token_type values, on a stated domain: ASCII, Latin-1
    (U+00C0-00DE except the multiplication sign), basic Cyrillic (U+0400-042F) and Greek capitals
-   (U+0391-03A9 except capital sigma, whose lowering is context-sensitive in Rust).  Every other
+   (U+0391-03A9 except capital sigma, whose lowering is context-sensitive in Rust) and the four
+   Latin digraph letters U+01C4-01CC, U+01F1-01F3 (upper- and title-case forms).  Every other
    byte sequence is left unchanged, so spellings with cased letters outside this domain are
    outside the model (and outside the generators). *)
 From OA Require Import Bytes.
@@ -18,6 +19,14 @@ Definition pair_lower (a b : N) : option (N * N) :=
     if (145 <=? b) && (b <=? 159) then Some (206, b + 32)
     else if (160 <=? b) && (b <=? 161) then Some (207, b - 32)
     else if (164 <=? b) && (b <=? 169) then Some (207, b - 32)
+    else None
+  else if a =? 199 then
+    (* the Latin digraphs: U+01C4/01C5 -> 01C6, U+01C7/01C8 -> 01C9, U+01CA/01CB -> 01CC,
+       U+01F1/01F2 -> 01F3 (upper-case AND title-case forms) *)
+    if (b =? 132) || (b =? 133) then Some (199, 134)
+    else if (b =? 135) || (b =? 136) then Some (199, 137)
+    else if (b =? 138) || (b =? 139) then Some (199, 140)
+    else if (b =? 177) || (b =? 178) then Some (199, 179)
     else None
   else None.
 
